@@ -45,17 +45,25 @@ Proof.
       reflexivity.
 Qed.
 
+Lemma crsp_eqb_eq a b : crsp_eqb a b = true <-> a = b.
+Proof.
+  destruct a as [a1 a2 a3 a4 a5], b as [b1 b2 b3 b4 b5]. unfold crsp_eqb. cbn [cr_id cr_dst cr_rspto cr_cmd cr_ok].
+  rewrite !andb_true_iff, !N.eqb_eq, Bool.eqb_true_iff. split.
+  - intros [[[[-> ->] ->] ->] ->]. reflexivity.
+  - intro H. inversion H. tauto.
+Qed.
+
 Lemma tobs_eqb_eq a b : tobs_eqb a b = true <-> a = b.
 Proof.
-  destruct a as [p1 t1 b1 n1 x1 y1], b as [p2 t2 b2 n2 x2 y2]. unfold tobs_eqb.
-  unfold to_progress, to_top, to_bot, to_ntrans, to_ntop, to_nbot.
+  destruct a as [p1 t1 b1 k1 n1 s1 x1 y1 z1], b as [p2 t2 b2 k2 n2 s2 x2 y2 z2]. unfold tobs_eqb.
+  cbn [to_progress to_top to_bot to_ctl to_ntrans to_cstate to_ntop to_nbot to_nctl].
   rewrite !andb_true_iff, Bool.eqb_true_iff, (list_eqb_eq trsp_eqb trsp_eqb_eq), (list_eqb_eq sreq_eqb sreq_eqb_eq),
-    N.eqb_eq, !Nat.eqb_eq.
+    (list_eqb_eq crsp_eqb crsp_eqb_eq), !N.eqb_eq, !Nat.eqb_eq.
   split.
-  - intros [[[[[-> ->] ->] ->] ->] ->]. reflexivity.
+  - intros [[[[[[[[-> ->] ->] ->] ->] ->] ->] ->] ->]. reflexivity.
   - intro H. inversion H. tauto.
 Qed.
 
 Lemma check_case_obs c : check_case c = true ->
-  snd (env_run (rob_init (c_size c) (c_width c) (c_tcap c) (c_bcap c)) (c_script c)) = o_ticks c.
+  snd (env_run (rob_init (c_size c) (c_width c) (c_tcap c) (c_bcap c) (c_ccap c)) (c_script c)) = o_ticks c.
 Proof. unfold check_case. apply (list_eqb_eq tobs_eqb tobs_eqb_eq). Qed.
